@@ -39,6 +39,12 @@ class Err(Exception):
     def __bool__(self):
         return False
 
+    def __eq__(self, other):
+        return isinstance(other, BaseException)     # exceptions that compare equal to each other (identity is what counts)
+
+    def __hash__(self):
+        return 19
+
 
 class Recv:
     """receivers are ==-equal and hash-equal but distinct instances"""
